@@ -30,8 +30,22 @@ mod verif_proofs {
         fn is_zero(&self) -> bool {
             self.0 == 0
         }
+        // The division of the pluggable clock is abstracted to an *arbitrary deterministic function*
+        // (Ackermann encoding over the two distinct argument pairs a call can produce: the machine's
+        // share and the framework's share).  The blocking contract is thereby proved for every clock
+        // whose div_duration_f64 is a function of its arguments - which includes IEEE division - and
+        // the SAT solver never has to compare two bit-blasted dividers.
         fn div_duration_f64(self, rhs: Self) -> f64 {
-            self.0 as f64 / rhs.0 as f64
+            unsafe {
+                if self.0 == DIV_ORACLE[0].0 && rhs.0 == DIV_ORACLE[0].1 {
+                    return DIV_ORACLE[0].2;
+                }
+                if self.0 == DIV_ORACLE[1].0 && rhs.0 == DIV_ORACLE[1].1 {
+                    return DIV_ORACLE[1].2;
+                }
+            }
+            kani::assume(false);
+            0.0
         }
     }
     impl InstT for VInst {
@@ -40,6 +54,17 @@ mod verif_proofs {
             VDur(self.0.saturating_sub(earlier.0))
         }
     }
+    pub(crate) static mut DIV_ORACLE: [(u64, u64, f64); 2] = [(0, 0, 0.0), (0, 0, 0.0)];
+    /// nondeterministic choice of the division function on the (at most two) argument pairs used
+    fn init_div_oracle() {
+        let o: [(u64, u64, f64); 2] = [(kani::any(), kani::any(), kani::any()), (kani::any(), kani::any(), kani::any())];
+        // functional consistency
+        kani::assume(!(o[0].0 == o[1].0 && o[0].1 == o[1].1) || o[0].2.to_bits() == o[1].2.to_bits());
+        unsafe {
+            DIV_ORACLE = o;
+        }
+    }
+
     pub struct NoRng;
     impl RngCore for NoRng {
         fn next_u32(&mut self) -> u32 {
@@ -143,7 +168,7 @@ mod verif_proofs {
         ($name:ident, $solver:ident) => {
             #[kani::proof_for_contract(Framework::<Vec<Machine>, NoRng, VInst>::below_limit_padding)]
             #[kani::solver($solver)]
-            fn $name() {
+            pub(crate) fn $name() {
                 let (f, rt, m) = pad_inputs();
                 let r = f.below_limit_padding(&rt, &m);
                 kani::cover!(r && rt.padding_sent < m.allowed_padding_packets, "true via budget");
@@ -192,6 +217,7 @@ mod verif_proofs {
 
     #[kani::proof]
     pub(crate) fn k_blk_cex() {
+        init_div_oracle();
         let (f, rt, m) = blk_inputs();
         kani::assume(blk_pre(&f, &rt, &m) && blk_headroom(&f, &rt));
         let r = f.below_limit_blocking(&rt, &m);
@@ -203,18 +229,22 @@ mod verif_proofs {
         ($name:ident, $solver:ident) => {
             #[kani::proof_for_contract(Framework::<Vec<Machine>, NoRng, VInst>::below_limit_blocking)]
             #[kani::solver($solver)]
-            fn $name() {
+            pub(crate) fn $name() {
+                init_div_oracle();
                 let (f, rt, m) = blk_inputs();
                 kani::assume(blk_headroom(&f, &rt));
                 let r = f.below_limit_blocking(&rt, &m);
                 kani::cover!(r && f.blocking_active, "true while blocking");
                 kani::cover!(r && !f.blocking_active, "true while not blocking");
+                kani::cover!(r && m.max_blocking_frac > 0.0 && f.max_blocking_frac > 0.0
+                    && !(rt.blocking_duration < rt.allowed_blocked_microsec) && !f.blocking_active,
+                    "true via both fraction tests");
                 kani::cover!(!r, "false");
             }
         };
     }
     k_blk_variant!(k_blk, cadical);
-    k_blk_variant!(k_blk_cvc5, cvc5);
+    k_blk_variant!(k_blk_kissat, kissat);
 
     fn blk_inputs() -> (Fw, MachineRuntime<VInst>, Machine) {
         let f = any_fw(kani::any());
